@@ -111,7 +111,7 @@ class CGraph:
                     # in THIS evaluation (the pullback restores them), not those seen while recording
                     sl = f.setitem[0]
                     f.setitem = (sl, operator.getitem(f.args[0].x, sl).copy())
-                f.__class__.pushforward(f.func, f.args, Fout = f)
+                f.__class__.pushforward(f.func, f.args, Fkwargs = f.kwargs, Fout = f)
             except Exception as e:
                 err_str = 'pushforward of node %d failed (%s)'%(nf,f.func.__name__)
                 err_str += 'reported error is:\n%s'%e
